@@ -179,7 +179,7 @@ PROPS = {
     "C24": dict(
         title="library list relations (member, member1, append, rember, permute, distinct, cons, first, rest, empty)",
         props_module="PvModel.Props.C24",
-        props_extra=["PvModel.Props.C24Sem", "PvModel.Props.C24Count"],
+        props_extra=["PvModel.Props.C24Sem", "PvModel.Props.C24Count", "PvModel.Props.C24First"],
         rule="every relation in random argument modes (each argument a fresh variable, a list with a variable element, or ground; lists of length "
              "<=4 over {1,2,3} with repeats); finite modes: the ground instances of the answers over a finite universe (through the reported "
              "constraints) are exactly the ground tuples in the relation, member yields one answer per matching position and member1 one per "
